@@ -46,3 +46,14 @@ package checkpoint
 //@   precall checkpoint\.restoreChunk$ :: err == nil && chunk != nil && chunk.Index == idx && rs.pendingChunks[idx]
 //@   ensures db.GFinalizes == old(db.GFinalizes)
 //@   note a chunk is imported only with the metadata the current checkpoint holds for its index; concurrency (two callers racing on the same pending index) is outside what a sequential contract can state
+
+// ---- chunk creation (C12): a chunk is written, and success reported, only while the tree iterator is error-free ----
+
+//@ import "github.com/oasisprotocol/oasis-core/go/storage/mkvs"
+
+//@ func seqChunker.createChunk
+//@   props C12
+//@   precall mkvs\.Iterator\)\.GetProof$ :: mkvs.ItErrNil(it)
+//@   precall checkpoint\.writeChunk$ :: mkvs.ItErrNil(it)
+//@   ensures-local err == nil ==> mkvs.ItErrNil(it)
+//@   note the proof that becomes the chunk is taken, the chunk is written and success is reported only when the iterator - at the position it has then - reports no error: an iteration that stopped because a node could not be read is never mistaken for the end of the tree (the look-ahead step that determines the next chunk's offset included)
